@@ -61,6 +61,13 @@ type verifFlushRec struct {
 // daemon is shut down at the end. Exactly one callback per flush; no error and the complete
 // payload on the wire when nothing failed and nothing was cancelled.
 func verifC16Socket(env *verifSockEnv, nFlush int, run func(context.Context), send func(context.Context, *gostatsd.MetricMap, gostatsd.SendCallback), complete func(wire string, nFlush int) bool) {
+	// the harness's own choices are drawn before any goroutine starts (a native replay then
+	// consumes the values in the same order): per flush 0: not cancelled, 1: cancelled before
+	// the hand-over, 2: after it
+	whens := make([]int, nFlush)
+	for f := range whens {
+		whens[f] = nondetIntIn(0, 2)
+	}
 	ctx, cancel := context.WithCancel(context.Background())
 	go run(ctx)
 	verifYield()
@@ -70,7 +77,7 @@ func verifC16Socket(env *verifSockEnv, nFlush int, run func(context.Context), se
 		rec := &verifFlushRec{}
 		recs[f] = rec
 		fctx, fcancel := context.WithCancel(ctx)
-		when := nondetIntIn(0, 2) // 0: not cancelled, 1: before the hand-over, 2: after it
+		when := whens[f]
 		if when == 1 {
 			fcancel()
 		}
